@@ -160,8 +160,11 @@ func decorate(o op, d decoration) op {
 // tcase is one request.
 type tcase struct {
 	Ops  []op   `json:"operations"`
-	Mech string `json:"mechanism"`       // "" = every operation is a good one
+	Mech string `json:"mechanism"`        // "" = every operation is a good one
 	Pos  int    `json:"failure_position"` // 1-based, 0 = none
+	// Backend: "memdb" (SQLite's in-memory VFS shared inside the process) or
+	// "file" (a SQLite file in WAL mode).
+	Backend string `json:"backend"`
 }
 
 func (c tcase) name() string {
@@ -173,25 +176,62 @@ func (c tcase) name() string {
 	return strings.Join(k, " ; ")
 }
 
-// variantsAt counts the variants that can stand at a failure position: the
-// failing operations and every decoration of every good operation.
-func variantsAt() int { return len(failing(0)) + len(decorations)*nGood }
+// alphabets of good operations by request length. Requests up to fullLen
+// operations use all ten; longer ones the listed subset (reads and DDL are
+// represented by select/drop there, the symbol flow by "symbols").
+var (
+	allGood = []int{0, 1, 2, 3, 4, 5, 6, 7, 8, 9}
+	good7   = []int{0, 1, 2, 3, 5, 6, 7} // insert update delete select symbols drop sql-dml
+	good6   = []int{0, 1, 3, 5, 6, 7}    // insert update select symbols drop sql-dml
+)
 
-// enumerate calls f for every case of length 1..maxLen whose index satisfies
-// want: every sequence of good operations, and every such sequence with one
+// plan is the good-operation alphabet for each request length 1..len(plan).
+type plan [][]int
+
+func planFor(thorough bool) plan {
+	if thorough {
+		return plan{allGood, allGood, allGood, good6}
+	}
+
+	return plan{allGood, allGood, good7}
+}
+
+func (p plan) String() string {
+	var parts []string
+
+	for l, a := range p {
+		names := make([]string, len(a))
+		for i, g := range a {
+			names[i] = strings.TrimPrefix(goodNames[g], "g-")
+		}
+
+		parts = append(parts, fmt.Sprintf("length %d: %d good operations (%s)", l+1, len(a), strings.Join(names, " ")))
+	}
+
+	return strings.Join(parts, "; ")
+}
+
+// enumerate calls f for every case of the plan whose index satisfies want:
+// every sequence of good operations, and every such sequence with one
 // position replaced by a failing operation or carrying an error-condition
 // list. A sequence that uses {{k}} without an earlier "symbols" operation is
 // not generated (its meaning is a property of symbol substitution, not of
 // atomicity). It returns the number of cases.
-func enumerate(maxLen int, want func(idx int) bool, f func(idx int, c tcase)) int {
+func enumerate(pl plan, want func(idx int) bool, f func(idx int, c tcase)) int {
 	idx := 0
-	nv := variantsAt()
+	nv := len(failing(0)) + len(decorations)
 
-	for l := 1; l <= maxLen; l++ {
+	for l := 1; l <= len(pl); l++ {
+		alpha := pl[l-1]
+		digits := make([]int, l)
 		seq := make([]int, l)
 
 		for {
-			// variant -1: all good; otherwise (position, variant)
+			for i, d := range digits {
+				seq[i] = alpha[d]
+			}
+
+			// pos -1: all good; otherwise (position, variant)
 			for pos := -1; pos < l; pos++ {
 				vmax := 1
 				if pos >= 0 {
@@ -199,7 +239,7 @@ func enumerate(maxLen int, want func(idx int) bool, f func(idx int, c tcase)) in
 				}
 
 				for v := 0; v < vmax; v++ {
-					c, ok := build(seq, pos, v)
+					c, ok := build(seq, pos, v, alpha[0])
 					if !ok {
 						continue
 					}
@@ -215,12 +255,12 @@ func enumerate(maxLen int, want func(idx int) bool, f func(idx int, c tcase)) in
 			// next sequence
 			i := l - 1
 			for i >= 0 {
-				seq[i]++
-				if seq[i] < nGood {
+				digits[i]++
+				if digits[i] < len(alpha) {
 					break
 				}
 
-				seq[i] = 0
+				digits[i] = 0
 				i--
 			}
 
@@ -234,11 +274,11 @@ func enumerate(maxLen int, want func(idx int) bool, f func(idx int, c tcase)) in
 }
 
 // build checks that (seq, pos, v) is a case and returns its constructor.
-func build(seq []int, pos, v int) (func() tcase, bool) {
+// v < len(failing): the operation at pos is replaced by failing operation v;
+// otherwise the good operation at pos carries decoration v-len(failing).
+func build(seq []int, pos, v, first int) (func() tcase, bool) {
 	nf := len(failing(0))
 
-	// which good operation stands at each position (the failure position may
-	// hold a failing operation instead)
 	symK := -1
 	ks := make([]int, len(seq))
 
@@ -260,16 +300,12 @@ func build(seq []int, pos, v int) (func() tcase, bool) {
 	}
 
 	// with a failing operation at pos the good operation of seq there is
-	// unused: generate the case once only (for seq[pos] == 0)
-	if pos >= 0 && v < nf && seq[pos] != 0 {
+	// unused: generate the case once only (for the alphabet's first operation)
+	if pos >= 0 && v < nf && seq[pos] != first {
 		return nil, false
 	}
 
-	// a decoration selects its good operation itself: the sequence's own
-	// element at pos must agree, so that each decorated case appears once
-	if pos >= 0 && v >= nf && (v-nf)%nGood != seq[pos] {
-		return nil, false
-	}
+	seq = append([]int(nil), seq...)
 
 	return func() tcase {
 		c := tcase{}
@@ -281,7 +317,7 @@ func build(seq []int, pos, v int) (func() tcase, bool) {
 				c.Ops = append(c.Ops, o)
 				c.Mech, c.Pos = o.Mech, p+1
 			case p == pos:
-				d := decorations[(v-nf)/nGood]
+				d := decorations[v-nf]
 				o := decorate(good(g, p, ks[p]), d)
 				c.Ops = append(c.Ops, o)
 				c.Mech, c.Pos = d.Mech, p+1
